@@ -312,3 +312,41 @@ def find_minfilters(fn):
                 mf.scan = sc
                 out.append(mf)
     return out
+
+
+def stored_result(sc, fn, prefix="possible_next_events"):
+    """where the scan publishes its result `(candidates, date)` into `<...prefix...>[key]`:
+         form A  in the reset arm:  T = ([elem], KEY)            ; tie arms: T[0].append(elem)
+         form B  in the reset arm:  L = [elem] (a local list)    ; tie arms: L.append(elem) ; after the loop: T = (L, best)
+       -> dict(target=text of T, elem=text, date_ok=bool, ties_ok=bool, node=stmt) or None"""
+    var = unparse(sc.loop.target)
+    arm_assigns = [s for s in sc.arm.body if isinstance(s, ast.Assign) and len(s.targets) == 1]
+    # form A
+    for s in arm_assigns:
+        t = unparse(s.targets[0])
+        if prefix in t and isinstance(s.value, ast.Tuple) and len(s.value.elts) == 2 and isinstance(s.value.elts[0], ast.List) and len(s.value.elts[0].elts) == 1:
+            elem = unparse(s.value.elts[0].elts[0])
+            date_ok = unparse(s.value.elts[1]) == sc.key or _subst(unparse(s.value.elts[1]), sc.defs) == _subst(sc.key, sc.defs)
+            ties_ok = True
+            for tarm in sc.ties:
+                app = [c for c in ast.walk(tarm) if isinstance(c, ast.Call) and isinstance(c.func, ast.Attribute) and c.func.attr in ("append", "insert")]
+                if app and not (len(app) == 1 and unparse(app[0].func.value) == t + "[0]" and unparse(app[0].args[-1]) == elem):
+                    ties_ok = False
+            return {"target": t, "elem": elem, "date_ok": date_ok, "ties_ok": ties_ok, "node": s, "form": "A"}
+    # form B
+    for s in arm_assigns:
+        if isinstance(s.targets[0], ast.Name) and isinstance(s.value, ast.List) and len(s.value.elts) == 1:
+            L = s.targets[0].id
+            elem = unparse(s.value.elts[0])
+            for x in ast.walk(fn):
+                if isinstance(x, ast.Assign) and len(x.targets) == 1 and prefix in unparse(x.targets[0]) and isinstance(x.value, ast.Tuple) and len(x.value.elts) == 2 \
+                        and unparse(x.value.elts[0]) == L and precedes(fn, sc.loop, x) and not any(x is y for y in ast.walk(sc.loop)):
+                    date_ok = unparse(x.value.elts[1]) == sc.best
+                    ties_ok = True
+                    for tarm in sc.ties:
+                        app = [c for c in ast.walk(tarm) if isinstance(c, ast.Call) and isinstance(c.func, ast.Attribute) and c.func.attr in ("append", "insert")]
+                        if app and not (len(app) == 1 and unparse(app[0].func.value) == L and unparse(app[0].args[-1]) == elem):
+                            ties_ok = False
+                    # the list must not be touched between the loop and the store
+                    return {"target": unparse(x.targets[0]), "elem": elem, "date_ok": date_ok, "ties_ok": ties_ok, "node": x, "form": "B", "list": L}
+    return None
